@@ -19,7 +19,8 @@ EXPLANATION = (
     "the flag, inside a try whose handler catches ValueError, embeds the exception text, clears the flag, does not "
     "re-raise or leave the loops; the flag is set true per game outside the mode loop; nothing outside the try "
     "dereferences unvalidated game components; (5) record contents: every record key is traced to its slot of "
-    "solve()'s return tuple and to the node field / counter behind that slot.")
+    "solve()'s return tuple and to the node field / counter behind that slot."
+    ' Also: no function of the batch driver changes a mutable default argument (0:defaults).')
 ASSUMPTIONS = ["games_dict maps names to dicts with the constructor's keyword names"]
 TECHNIQUE = "symbolic loop summaries with unrolling of the literal mode loop + provenance chains (ast)"
 
